@@ -11,7 +11,7 @@ LEVEL = "exploration"
 TECHNIQUE = "Hypothesis-generated scattered sources (1..3 torrents over 1..3 search directories at depths 0..3, decoys, unrelated files, harness-owned enumeration order) rebuilt into a fresh destination; oracle: independent reference verification of the destination, presence/length of every listed file, returned count"
 RULE = ("Cases: 1..3 torrents (tree of non-zero bytes x P x creator incl. v1, v2, hybrid; own default metafiles) whose files are scattered "
         "under their own names over 1..3 search directories at drawn depths, next to unrelated files and decoys (same name, same size, "
-        "every byte different) with the directory enumeration order forced (sorted / reverse / hashed) so the decoy is met before or "
+        "every byte different, or agreeing with the real file in its first piece / its tail / all but one byte) with the directory enumeration order forced (sorted / reverse / hashed) so the decoy is met before or "
         "after the real file; metafiles passed as a list or as their directory; fresh destination. Oracle after Assembler(...)."
         "assemble_torrents(): reference verifier reports 100% for every metafile against dest/<name>; every listed path exists with "
         "its exact length (absent empty files are reported in their own bucket); returned count <= number of listed files present in "
@@ -19,7 +19,7 @@ RULE = ("Cases: 1..3 torrents (tree of non-zero bytes x P x creator incl. v1, v2
         "a decoy present, or v2/hybrid. Distinct = distinct canonical case JSON.")
 ASSUMPTIONS = [
     "vf/ref/recheck.py reference verifier; own metafiles are correct per C01-C03",
-    "payload bytes are non-zero; decoys differ from the real file in every byte; metafiles are the tool's default (non-aligned) output",
+    "payload bytes are non-zero; metafiles are the tool's default (non-aligned) output",
     "BEP 52 cannot tell a directory holding one same-named file from a single file: such trees are not generated",
 ]
 BUDGET = {
@@ -29,7 +29,7 @@ BUDGET = {
 
 
 def strategy(tier):
-    return rb.rebuild_case(tier, prepopulate=False)
+    return rb.rebuild_case(tier, prepopulate=False, partial_decoys=True)
 
 
 def classes_of(case):
@@ -63,8 +63,11 @@ def run_case(case):
             layout = rb.build(scr, case)
         except Exception as e:
             return Outcome(Violation("C13:setup-exception:%s" % type(e).__name__, "creating metafiles raised %r" % (e,)), False)
-        dest = os.path.join(scr, "dest")
-        os.makedirs(dest)
+        dest = rb.make_dest(scr, case)
+        if case.get("dest_via_symlink"):
+            cls.add("dest-via-symlink")
+        if layout["partial"]:
+            cls.add("partial-decoy")
         count, exc = rb.run_rebuild(layout, case, dest)
         vtag = "+".join(sorted(cls & {"v1", "v2", "hybrid"}))
         if exc is not None:
@@ -81,6 +84,14 @@ def run_case(case):
                     present += 1
                     if os.path.getsize(p) != ln:
                         wrong_len.append(rel)
+                    elif layout["partial"] and ver == "v1":
+                        with open(p, "rb") as fd:
+                            got = fd.read()
+                        if any(n == os.path.basename(rel) and d == got for n, d in layout["partial"]):
+                            # known finding (KNOWN_FINDINGS.txt): v1 rebuild keeps the first candidate that verified ONE piece of the file
+                            return Outcome(Violation("C13:v1:partial-decoy-placed",
+                                                     "v1 rebuild placed a same-named same-sized file that agrees with the real one in some pieces only (%s), "
+                                                     "although the intact copy is available" % rel), True, sorted(cls))
                 elif ln == 0:
                     missing_empty.append(rel)
                 else:
